@@ -333,7 +333,7 @@ _C09_QUICK_PAIRS = {("StringTag", "Int64"), ("Int8", "Int32"), ("Int8", "Int16")
 PROPERTIES["C09"] = {
     "harnesses": [MH("c09_build_" + n, inputs="builder scenario %s: file contents and modification times symbolic" % n, timeout=900,
                      bounds="PackageBuilder .. build() from MIR; both emitted headers against the structural validator; rpmlib(FileCaps) declared when capabilities are present")
-                  for n in ("empty", "files2", "scriptlets", "scriptlets_plain", "deps", "caps_first", "caps_last")]
+                  for n in ("empty", "files2", "scriptlets", "scriptlets_plain", "deps", "caps_first", "caps_last") + tuple("dep_" + k for k in ("requires", "provides", "obsoletes", "conflicts", "recommends", "suggests", "enhances", "supplements"))]
     + [MH("c09_one_" + a, inputs="one record of type %s, tag and contents symbolic" % a, bounds="Header::from_entries with one record", timeout=600) for a in _C09V]
     + [MH("c09_pair_%s_%s" % (a, b), tier=("quick" if (a, b) in _C09_QUICK_PAIRS else "thorough"), timeout=900,
           inputs="two records of types %s and %s, tags symbolic (distinct), contents symbolic" % (a, b), bounds="Header::from_entries with two records") for a in _C09V for b in _C09V]
@@ -370,7 +370,7 @@ PROPERTIES["C17"] = {
 _C12_LINK = [(k, a, b) for k in ("regular", "dir", "symlink") for (a, b) in ((1, 1), (1, 3), (2, 2), (2, 4), (2, 5), (3, 5))]
 PROPERTIES["C12"] = {
     "harnesses": [MH("c12_positive_" + k, inputs="one %s entry at /<x><y> (two symbolic letters), permission bits any 12 bits, 2 symbolic content bytes / 2-letter link target" % k, timeout=600,
-                     bounds="where extraction returns Ok: the file-system calls made at target+path are create+write(content)+chmod(bits) / mkdir+chmod / symlink(target)") for k in ("regular", "dir", "symlink")]
+                     bounds="where extraction returns Ok: the file-system calls made at target+path are create+write(content)+chmod(bits) / mkdir+chmod / symlink(target)") for k in ("regular", "dir", "symlink", "dir_pre")]
     + [MH("c12_dirs_%d" % n, inputs="one directory name of %d characters over {'/', '.', 'a'} (every string), no files" % n, bounds="Package::extract, DIRNAMES pre-creation", timeout=600,
                      covers_unsat_ok=["extraction succeeds", "extraction returns an error"]) for n in (1, 2, 3, 4, 5)]
     + [MH("c12_file_%s_%d" % (k, n), inputs="one %s entry with a path of %d characters over {'/', '.', 'a'} (every string)" % (k, n), bounds="Package::extract, one file entry", timeout=900, tier=("quick" if n <= 5 else "thorough"),
@@ -425,6 +425,9 @@ PROPERTIES["C06"] = {
     + [MH("c06_all_strings", inputs="all fourteen string fields, 1 symbolic character each", bounds="all string setters together", timeout=900),
        MH("c06_scriptlets_prog", inputs="eight scriptlets: text 2 symbolic characters, flags any u32, interpreter of two 1-character words", bounds="scriptlet setters vs scriptlet accessors", timeout=900),
        MH("c06_scriptlets_plain", inputs="eight scriptlets: text 2 symbolic characters, flags any u32, no interpreter", bounds="scriptlet setters vs scriptlet accessors", timeout=900),
+       MH("c06_fileopts_flags", inputs="every ordered pair of the FileOptions flag methods", bounds="flags = union of both methods' flags", timeout=300),
+    ] + [MH("c06_deps_" + k, inputs="one %s dependency and none of the other kinds: name, version 1 symbolic character, flags any u32" % k, bounds="a dependency kind used alone", timeout=600)
+         for k in ("requires", "provides", "obsoletes", "conflicts", "recommends", "suggests", "enhances", "supplements")] + [
        MH("c06_deps_all", inputs="two dependencies per kind (eight kinds): name, version 1 symbolic character, flags any u32", bounds="dependency setters vs accessors (in order, among the builder's own entries)", timeout=900),
        MH("c06_with_file_inherit", inputs="stubbed source file: content byte, st_mode (any regular-file mode), mtime symbolic", bounds="with_file with the mode inherited from the source file", timeout=600),
        MH("c06_with_file_explicit", inputs="stubbed source file plus an explicit mode (any permission bits)", bounds="with_file with an explicit mode", timeout=600),
